@@ -24,6 +24,7 @@ EXPLANATION = (
     "'Balance' / presence of the MCS key (which is only set under not solved) / restore of a text saved by such a guarded stage; "
     "(G3) no other validator or stage can write 'input-balanced' into the method column."
     ' (G4) the carbon label compares sums over every component of the two sides (shared with C07-E6); (G5) ids used as list positions are positions of that list (shared with C06-B2); (G6) before the input check the solved column is set to the constant False for every row on every path (a verdict of an earlier run cannot survive); (G7) the composition the input check compares is a total, injective function of the element (shared with C07-E1).'
+    ' (G10) no row disappears because an equal row shares its batch (shared with C05-P1, duplicates).'
 )
 ASSUMPTIONS = [
     "the tool's balance verdict is the reference (its coincidence with an independent verdict is C07 behaviour, not decided)",
